@@ -1022,7 +1022,7 @@ fn qv_path_cases(r: &mut Rng, t: Tier, n_cases: usize, space: bool, out: &mut Ve
             _ => some_len(r, scale(t, 20_000, 300_000)),
         };
         let sh = r.below(8);
-        let vals = shaped_seq(r, n, &[0, 1, 2, 3], sh);
+        let vals = if n == 0 { vec![] } else { shaped_seq(r, n, &[0, 1, 2, 3], sh) };
         let js = join(&vals);
         let cap = *r.pick(&[0usize, 1, n / 2, n, n + 1, 2 * n + 300, 4096]);
         c.tag(format!("lenclass={}", len_class(n)));
